@@ -279,9 +279,117 @@ def run_lambda_constants(ctx, n):
             ctx.disagree("checkAst", {"entry": what}, got, m)
 
 
+def _retype(rng, v):
+    "a value that compares equal to v but differs in the type of some (possibly nested) scalar: 1 / True / 1.0"
+    if isinstance(v, bool):
+        return rng.choice([int(v), float(v)])
+    if isinstance(v, int) and v in (0, 1):
+        return rng.choice([bool(v), float(v)])
+    if isinstance(v, int) and abs(v) < 2 ** 50:
+        return float(v)
+    if isinstance(v, float) and v.is_integer() and abs(v) < 2 ** 50:
+        return int(v)
+    if isinstance(v, list):
+        return [_retype(rng, x) for x in v]
+    if isinstance(v, tuple):
+        return tuple(_retype(rng, x) for x in v)
+    if isinstance(v, dict):
+        return {k: _retype(rng, x) for k, x in v.items()}
+    return v
+
+
+def run_metadata_sequences(ctx, n):
+    """several MetaData calls in a row whose dictionaries are equal under == but differ in the type of a value (seed
+    C13-w7-1), or are identical, or differ: every block handed in is on the stream, in order, with its exact values"""
+    for _ in range(n):
+        md = gen_metadata(ctx.rng)
+        if has_surrogate(md):
+            continue
+        md.setdefault("n_jets", ctx.rng.choice([0, 1, True, 2.0, 7]))
+        blocks = [md]
+        for _k in range(ctx.rng.choice([1, 1, 2])):
+            r = ctx.rng.random()
+            blocks.append(_retype(ctx.rng, blocks[-1]) if r < 0.6 else (dict(blocks[-1]) if r < 0.8 else gen_metadata(ctx.rng)))
+        if any(has_surrogate(b) for b in blocks):
+            continue
+        ctx.count("mdseq:" + repr(blocks), True, tags=["MetaData sequence"])
+        try:
+            s = dataset()
+            between = ctx.rng.random() < 0.2
+            for i, b in enumerate(blocks):
+                if between and i == 1:
+                    s = s.Select("lambda e: e")
+                s = s.MetaData(b)
+        except Exception as e:
+            ctx.violate({"entry": "MetaData sequence", "blocks": repr(blocks)[:400]}, f"MetaData raised {type(e).__name__}: {e}")
+            continue
+        found = []
+        node = s.query_ast
+        while isinstance(node, ast.Call) and isinstance(node.func, ast.Name) and node.func.id in ("MetaData", "Select"):
+            if node.func.id == "MetaData":
+                try:
+                    found.append(ast.literal_eval(node.args[1]))
+                except Exception:
+                    found.append("<not a literal>")
+            node = node.args[0]
+        found.reverse()
+        if len(found) != len(blocks) or not all(same_value(f, b) for f, b in zip(found, blocks)):
+            ctx.violate({"entry": "MetaData sequence", "given": repr(blocks)[:400], "on_the_stream": repr(found)[:400]},
+                        "MetaData: the blocks on the stream are not exactly the dictionaries handed in, in order")
+
+
+def run_nested_lambda_constants(ctx):
+    """a captured value that is not a transportable scalar, used inside a NESTED lambda on an object of unknown or of known
+    type: the operator call must raise ValueError (seed C13-w7-2: the constant gate skipped nested lambdas)"""
+    text = (
+        "from typing import Iterable\n"
+        "class Jet:\n    def pt(self) -> float: ...\n"
+        "class Evt:\n    def jets(self) -> Iterable[Jet]: ...\n"
+        "def b0(ds, cuts):\n    return ds.Select(lambda e: e.jets().Where(lambda j: j.pt() > cuts))\n"
+        "def b1(ds, cuts):\n    return ds.Select(lambda e: e.jets().Select(lambda j: (j.pt(), cuts)))\n"
+        "def b2(ds, cuts):\n    return ds.Where(lambda e: e.jets().Where(lambda j: e.things().Select(lambda t: t.x == cuts).Count() > 0).Count() > 0)\n"
+        "def b3(ds, cuts):\n    return ds.SelectMany(lambda e: e.jets().Select(lambda j: [j.pt(), cuts]))\n"
+        "def build(ds, cuts):\n    return [lambda: b0(ds, cuts), lambda: b1(ds, cuts), lambda: b2(ds, cuts), lambda: b3(ds, cuts)]\n"
+    )
+    mod = srcmod.make_module(text, "c13n")
+    from func_adl import EventDataset
+
+    class TDS(EventDataset[mod.Evt]):  # type: ignore
+        def __init__(self):
+            super().__init__(mod.Evt)
+
+        async def execute_result_async(self, a, title=None):
+            return a
+
+    bad_values = [[30.0, 40.0], {"a": 1}, None, object(), (1, 2), {1, 2}, 3 + 4j, [], Ellipsis]
+    good_values = [30.0, 5, "pt", True, b"x"]
+    for typed in (False, True):
+        for v in bad_values + good_values:
+            for i, thunk in enumerate(mod.build(TDS() if typed else dataset(), v)):
+                legal = isinstance(v, LEGAL)
+                ctx.count(f"nested:{typed}:{i}:{v!r}", True, tags=["nested-lambda constant", "typed" if typed else "untyped"])
+                try:
+                    s = thunk()
+                    got = "ok"
+                except ValueError:
+                    got = "ValueError"
+                except Exception as e:
+                    got = type(e).__name__
+                if legal and got != "ok":
+                    ctx.violate({"entry": "nested lambda", "typed": typed, "shape": i, "value": repr(v)}, f"a transportable constant in a nested lambda was refused ({got})")
+                if not legal and got != "ValueError":
+                    emitted = ""
+                    if got == "ok":
+                        emitted = ast.dump(s.query_ast)[-300:]
+                    ctx.violate({"entry": "nested lambda", "typed": typed, "shape": i, "value": repr(v), "emitted": emitted},
+                                f"a constant of type {type(v).__name__} inside a nested lambda was not refused with ValueError (got {got})")
+
+
 def run(ctx):
     run_values(ctx, ctx.n(1500, 60000))
     run_lambda_constants(ctx, ctx.n(150, 3000))
+    run_metadata_sequences(ctx, ctx.n(150, 3000))
+    run_nested_lambda_constants(ctx)
 
 
 def replay(ctx, case):
